@@ -12,6 +12,7 @@ import (
 
 	sdkmath "cosmossdk.io/math"
 	sdk "github.com/cosmos/cosmos-sdk/types"
+	clienttypes "github.com/cosmos/ibc-go/v7/modules/core/02-client/types"
 	"github.com/ethereum/go-ethereum/accounts/abi"
 	"github.com/ethereum/go-ethereum/common"
 
@@ -69,6 +70,19 @@ func TestC05(t *testing.T) {
 			continue
 		}
 		c05Multi(r, id)
+	}
+	// (a3) an ICS-20 transfer through the precompile, over a real (loopback) channel, in a frame that fails
+	for rep := 0; rep < r.Pick(2, 30); rep++ {
+		for _, endKind := range []string{"revert", "invalid", "out-of-gas", "parent-reverts", "none"} {
+			for _, who := range []string{"contract-with-grant-spends-signer-funds", "contract-spends-own-funds"} {
+				id := fmt.Sprintf("ics20/%s/%s/%d", endKind, who, rep)
+				fidx++
+				if !r.Want(id, fidx) {
+					continue
+				}
+				c05ICS20(r, id, endKind, who)
+			}
+		}
 	}
 	// (b) EVM-only failing frames (storage, balances, logs, creates, self-destructs) vs go-ethereum
 	np := r.Pick(96, 4800)
@@ -841,4 +855,127 @@ func shapeName(nested bool) string {
 		return "nested"
 	}
 	return "siblings"
+}
+
+// c05ICS20: a frame sends an ICS-20 transfer through the precompile (escrow, packet commitment,
+// sequence counter, spent allowance) and then fails; its caller goes on. Nothing may remain. The
+// control (endKind "none") must leave all of it.
+func c05ICS20(r *report.R, id, endKind, who string) {
+	rng := r.Rand(id)
+	e := newPcEnv(uint64(r.Seed), rng)
+	n := e.n
+	r.Eval(1)
+	lb, err := n.OpenLoopback(n.Accounts[7])
+	if err != nil {
+		r.Inconcl("loopback: %v", err)
+		return
+	}
+	origin := n.Accounts[rng.Intn(4)]
+	amt := big.NewInt(int64(1000 + rng.Intn(100000)))
+	end := []evmasm.Step{}
+	switch endKind {
+	case "revert", "parent-reverts":
+		end = []evmasm.Step{evmasm.Revert{}}
+	case "invalid":
+		end = []evmasm.Step{evmasm.Invalid{}}
+	case "out-of-gas":
+		end = []evmasm.Step{evmasm.BurnGas{Loops: 1 << 40}}
+	}
+	inner := []evmasm.Step{evmasm.SStore{Slot: 8, Val: 8}, evmasm.Forward{Kind: evmasm.Call, To: addrICS20, Fail: evmasm.Bubble}, evmasm.SStore{Slot: 9, Val: 9}}
+	if endKind != "parent-reverts" {
+		inner = append(inner, end...)
+	}
+	d, err := e.deploy(inner, 10_000_000)
+	if err != nil {
+		return
+	}
+	g := uint64(0)
+	if endKind == "out-of-gas" {
+		g = 1_200_000
+	}
+	target := d
+	if endKind == "parent-reverts" {
+		mid, err := e.deploy(append([]evmasm.Step{evmasm.Forward{Kind: evmasm.Call, To: d, Fail: evmasm.Bubble}, evmasm.SStore{Slot: 9, Val: 9}}, end...), 1000)
+		if err != nil {
+			return
+		}
+		target = mid
+	}
+	root, err := e.deploy([]evmasm.Step{evmasm.Forward{Kind: evmasm.Call, To: target, Gas: g, Fail: evmasm.Ignore, Record: 1}, evmasm.SStore{Slot: 7, Val: 7}}, 1000)
+	if err != nil {
+		return
+	}
+	sender := origin.Eth
+	if who == "contract-spends-own-funds" {
+		sender = d // the calling contract is the sender (the precompile still asks for the signer's grant to it)
+	}
+	{
+		type abiCoin struct {
+			Denom  string
+			Amount *big.Int
+		}
+		type abiAlloc struct {
+			SourcePort    string
+			SourceChannel string
+			SpendLimit    []abiCoin
+			AllowList     []string
+		}
+		data, err := e.abiICS20.Pack("approve", d, []abiAlloc{{"transfer", lb.A, []abiCoin{{vn.Denom, new(big.Int).Mul(amt, big.NewInt(3))}}, nil}})
+		if err != nil {
+			r.Note("pack approve: %v", err)
+			return
+		}
+		to := addrICS20
+		res := n.Deliver(n.EthTx(origin, vn.EthArgs{Nonce: n.EthNonce(origin.Eth), To: &to, Gas: 1_500_000, GasPrice: big.NewInt(1_000_000_000), Data: data}))
+		if ers := vn.EthResult(res); res.Code != 0 || len(ers) != 1 || ers[0].VmError != "" {
+			r.Note("ics20 approve failed: %.100s", res.Log)
+			return
+		}
+	}
+	data, err := e.abiICS20.Pack("transfer", "transfer", lb.A, vn.Denom, amt, sender, n.Accounts[5].Addr.String(), clienttypes.NewHeight(1, 10_000_000), uint64(0), "")
+	if err != nil {
+		r.Note("pack transfer: %v", err)
+		return
+	}
+	before := n.Snapshot(n.Ctx())
+	res := n.Deliver(n.EthTx(origin, vn.EthArgs{Nonce: n.EthNonce(origin.Eth), To: &root, Gas: 4_000_000, GasPrice: big.NewInt(1_000_000_000), Data: data}))
+	diff := vn.Diff(before, n.Snapshot(n.Ctx()))
+	ers := vn.EthResult(res)
+	if res.Code != 0 || len(ers) != 1 || ers[0].VmError != "" {
+		r.Note("%s: top-level failure %.80s", id, res.Log)
+		return
+	}
+	mark := e.slot(root, 1)
+	cls, lines := c05Residue(diff, origin.Addr, e.feeColl, []common.Address{root})
+	if endKind == "none" {
+		_, sent := vn.PacketFromEvents(res.Events)
+		hasIBC := false
+		for _, c := range cls {
+			if c == "ibc" {
+				hasIBC = true
+			}
+		}
+		if mark == 2 && sent && hasIBC {
+			r.Count("ics20_controls_with_packet", 1)
+			r.Nontriv("ics20|control|" + who)
+		} else {
+			r.Note("ics20 control without effect: mark=%d sent=%v stores=%v", mark, sent, cls)
+		}
+		return
+	}
+	if mark != 1 {
+		r.Note("%s did not fail as planned (mark %d)", id, mark)
+		return
+	}
+	if _, sent := vn.PacketFromEvents(res.Events); sent {
+		r.Violation(id, fmt.Sprintf("ics20-transfer|%s|%s|send_packet-event-of-failed-frame-emitted", endKind, who), "the transaction's events announce a packet that the failed frame sent", nil)
+		return
+	}
+	if len(cls) > 0 {
+		r.Violation(id, fmt.Sprintf("ics20-transfer|%s|%s|state-of-failed-frame-survives", endKind, who),
+			fmt.Sprintf("a frame sent an ICS-20 transfer through the precompile and then failed (%s); stores %s still show it: %v", endKind, strings.Join(cls, "+"), trunc(lines, 6)), nil)
+		return
+	}
+	r.Count("ics20_failed_frames_without_trace", 1)
+	r.Nontriv(fmt.Sprintf("ics20|%s|%s", endKind, who))
 }
